@@ -360,6 +360,30 @@ def run_case(case):
                         # of the request no longer applies; the conditional law is decided on a large seeded sample below
                         protocol_ok = False
                         r.hit('protocol-changed')
+                        # a one-row request drawn in another way: pool many one-row calls of the seeded model and compare the
+                        # normal scores of the free columns with the Schur law (6-sigma bands; moderate conditioning scores only,
+                        # where cdf -> ppf recovers the scores)
+                        if rows == 1 and len(free) >= 1 and np.max(np.abs(zref)) <= 2.6 and np.linalg.eigvalsh(S_ref).min() > 1e-6:
+                            N = 2000
+                            gm.set_random_state(4242)
+                            try:
+                                pool = np.vstack([gm.sample(1, conditions=cond)[free].to_numpy(dtype=float) for _ in range(N)])
+                            except Exception as e:
+                                r.violation(f'C12:raises:{type(e).__name__}:pooled', f'{tag}: repeated sample(1, conditions) raised '
+                                            f'{type(e).__name__}: {e}', case=case)
+                                continue
+                            r.tr(N)
+                            Zp = np.column_stack([stats.norm.ppf(np.clip(np.asarray(uni[c].cdf(pool[:, j]), float), 1e-12, 1 - 1e-12))
+                                                  for j, c in enumerate(free)])
+                            mh, Ch = Zp.mean(axis=0), np.atleast_2d(np.cov(Zp, rowvar=False))
+                            sd_ = np.sqrt(np.diag(S_ref))
+                            band_m = 6 * sd_ / np.sqrt(N) + 1e-3
+                            band_c = 6 * np.sqrt((np.outer(sd_ ** 2, sd_ ** 2) + S_ref ** 2) / N) + 1e-3
+                            if np.any(np.abs(mh - mu_ref) > band_m) or np.any(np.abs(Ch - S_ref) > band_c):
+                                r.violation('C12:pooled-one-row:conditional-law', f'{tag}: {N} one-row conditional samples of the '
+                                            f'seeded model have normal-score mean {mh.round(3).tolist()} / covariance '
+                                            f'{Ch.round(3).tolist()}; the Schur law is {mu_ref.round(3).tolist()} / '
+                                            f'{S_ref.round(3).tolist()}', case=case)
                         continue
                     if not np.allclose(cov, cov.T, rtol=0, atol=1e-12) or np.linalg.eigvalsh((cov + cov.T) / 2).min() < -1e-10:
                         r.violation('C12:covariance-invalid', f'{tag}: conditional covariance is not symmetric PSD', case=case)
